@@ -79,16 +79,17 @@ theorem mapM_ok_pointwise {α β} (f : α → Except Fault β) (l : List α) (bs
       rw [List.mapM_cons, h1, ih bs (fun p hp => h p (by simp [hp])) (by simpa using hl)]
       rfl
 
-theorem deserColumn_eq (t : CapColumn) (c : Column)
-    (h : ({ name := t.name, len := t.len, range := deserRange t.range, codec := t.codec.map deserOp,
-            data := t.data.map deserSection } : Column) = c) :
-    deserColumn t =
-      if c.codec.isEmpty then
-        (match c.data with
-         | [] => .error .index
-         | d :: _ => if castToBasicOk d.encodingType then .ok c else .error .unreachable)
-      else .ok c := by
-  subst h; rfl
+theorem columnNew_ok_eq (c c' : Column) (h : columnNew c = .ok c') : c' = c := by
+  unfold columnNew at h
+  split at h
+  · split at h
+    · cases h
+    · split at h
+      · cases h; rfl
+      · cases h
+  · cases ho : outputType c.codec (c.data.map (·.encodingType)) with
+    | error e => simp [ho, bind, Except.bind] at h
+    | ok t => simp [ho, bind, Except.bind, pure, Except.pure] at h; exact h.symm
 
 /-! ### hash maps with distinct keys -/
 
